@@ -1,6 +1,6 @@
 (** Resuming a worker, and a whole scheduling pass, keep the simulation invariant. *)
 From OCV Require Import Base.Prelude Misc.Time Queue.PMap Queue.OWS Queue.OWSOracle Queue.OWSLemmas Queue.OWSModel Queue.OWSStep.
-From OCV Require Import Coroutine.Co Coroutine.CoLemmas Sched.Sched Sched.Pool Sched.PoolOracle Sched.PoolBase Sched.PoolWf Sched.PoolQ Sched.PoolJ Sched.PoolJLemmas Sched.PoolCanon Sched.PoolUnfold Sched.PoolJStep Sched.PoolJLoop.
+From OCV Require Import Coroutine.Co Coroutine.CoLemmas Sched.Sched Sched.Pool Sched.PoolOracle Sched.PoolBase Sched.PoolWf Sched.PoolQ Sched.PoolJ Sched.PoolJLemmas Sched.PoolCanon Sched.PoolUnfold Sched.PoolMeasure Sched.PoolJStep Sched.PoolJLoop Sched.PoolCount Sched.PoolBound.
 From Coq Require Import ZifyBool ZifyNat.
 Open Scope Z_scope.
 
@@ -49,16 +49,18 @@ Proof. reflexivity. Qed.
 Lemma pop_front_le1 {A} (d : A) l : (length l <= 1)%nat -> snd (pop_front d l) = [].
 Proof. destruct l as [|a [|b l]]; cbn; intros; try reflexivity. lia. Qed.
 
+Definition sys_cost (r : res) : Z := match r with ROk (Syscall _ _ _) => 2 | _ => 0 end.
+
 (** the three ways [k_finish] ends *)
 Lemma k_finish_J tnt x0 x2 d w t evs out :
   J mx tnt x2 d (Some w) t -> quiet_off t -> G mx x2 (Some w) -> pw_cancel_cos x2 = pw_cancel_cos x0 ->
-  wl_post x2 w out ->
+  wl_post x2 w out -> out <> WFuel ->
   exists x' r evs', k_finish x2 w evs out = (x', r, evs ++ evs') /\
-    ((exists x3, x' = set_spin x3 /\ r = RBad /\ J mx tnt x3 d (Some w) (fold_left pev evs' t)) \/
-     (J mx tnt x' d (Some w) (fold_left pev evs' t) /\ G mx x' None /\ pw_ts x' = [] /\
-      pw_cancel_cos x' = pw_cancel_cos x0 /\ placed x' w r)).
+     J mx tnt x' d (Some w) (fold_left pev evs' t) /\ G mx x' None /\ pw_ts x' = [] /\
+     pw_cancel_cos x' = pw_cancel_cos x0 /\ placed x' w r /\ rho x' + 1 + sys_cost r <= rho x2 + wl_cost out /\
+     pw_clock x' = pw_clock x2.
 Proof.
-  intros HJ Hq HG Ecc Hpost. unfold k_finish. destruct out; cbn [wl_post] in Hpost; try contradiction.
+  intros HJ Hq HG Ecc Hpost Hnf. unfold k_finish. destruct out; cbn [wl_post] in Hpost; try contradiction.
   - (* yield *)
     destruct Hpost as (k & i & rest & Hk & Hl & Hdead & Htp & Hts & Htask & [[Est Hb]|(y & n & ts & Est & Hb)]).
     + rewrite Hk, Est. rewrite (jp_cn _ _ _ (j_p _ _ _ _ _ _ _ HJ)). cbn [pop_front].
@@ -68,23 +70,28 @@ Proof.
       assert (get_worker (set_req x2 [] []) w = Some k) as Hk' by exact Hk.
       destruct (J_k_change mx tnt _ d w t k (Suspend 0 ts) HJ' Hq Hk' Hl ltac:(discriminate))
         as (x3 & Ekc & HJ3 & Hm3 & Hk3 & HG3a & _ & _).
-      rewrite Ekc. eexists _, _, _. split; [reflexivity|]. right. cbn [fold_left].
+      destruct (k_change_rho (set_req x2 [] []) w k (Suspend 0 ts) x3 _ (jp_pools _ _ _ (j_p _ _ _ _ _ _ _ HJ))
+                  (jp_cur _ _ _ (j_p _ _ _ _ _ _ _ HJ)) Hk' Hl Ekc) as [Hr3 _]. cbn [terminal creator_grows] in Hr3.
+      change (rho (set_req x2 [] [])) with (rho x2) in Hr3.
+      rewrite Ekc. eexists _, _, _. split; [reflexivity|]. cbn [fold_left].
       split; [exact HJ3|]. split; [apply HG3a; reflexivity|]. destruct Hm3 as [M1 M2 M3 M4 M5 M6].
-      split; [rewrite M2; reflexivity|]. split; [rewrite M1; exact Ecc|].
-      exists (with_st k (Suspend 0 ts)). split; [exact Hk3|]. split; [reflexivity|]. right.
-      split; [reflexivity|]. split; [exact Hdead|]. split; [exact Htp|]. exists i, rest. split; [exact Htask|].
-      left. exists ts. split; [reflexivity | exact Hb].
+      split; [rewrite M2; reflexivity|]. split; [rewrite M1; exact Ecc|]. split.
+      * exists (with_st k (Suspend 0 ts)). split; [exact Hk3|]. split; [reflexivity|]. right.
+        split; [reflexivity|]. split; [exact Hdead|]. split; [exact Htp|]. exists i, rest. split; [exact Htask|].
+        left. exists ts. split; [reflexivity | exact Hb].
+      * split; [cbn [sys_cost wl_cost]; lia | rewrite M4; reflexivity].
     + rewrite Hk, Est. rewrite (jp_cn _ _ _ (j_p _ _ _ _ _ _ _ HJ)). cbn [pop_front].
       destruct (pop_front 0 (pw_ts x2)) as [ts0 ts'] eqn:Ep.
       assert (ts' = []) as -> by (pose proof (pop_front_le1 0 _ Hts) as H; rewrite Ep in H; exact H).
-      eexists _, _, []. rewrite app_nil_r. split; [reflexivity|]. right. cbn [fold_left].
+      eexists _, _, []. rewrite app_nil_r. split; [reflexivity|]. cbn [fold_left].
       split; [apply J_set_req0, HJ|]. split.
       { eapply (G_frame mx x2); [reflexivity | reflexivity | reflexivity|].
         eapply G_drop_hole; [exact HG | exact Hk | congruence | rewrite Est; reflexivity]. }
-      split; [reflexivity|]. split; [exact Ecc|].
-      exists k. split; [exact Hk|]. split; [rewrite Est; reflexivity|]. right.
-      split; [exact Hl|]. split; [exact Hdead|]. split; [exact Htp|]. exists i, rest. split; [exact Htask|].
-      right. exists y, n, ts. split; [exact Est | exact Hb].
+      split; [reflexivity|]. split; [exact Ecc|]. split.
+      * exists k. split; [exact Hk|]. split; [rewrite Est; reflexivity|]. right.
+        split; [exact Hl|]. split; [exact Hdead|]. split; [exact Htp|]. exists i, rest. split; [exact Htask|].
+        right. exists y, n, ts. split; [exact Est | exact Hb].
+      * split; [cbn [sys_cost wl_cost]; change (rho (set_req x2 [] [])) with (rho x2); lia | reflexivity].
   - (* the worker exits *)
     destruct Hpost as (k & Hk & Hl & Est & Htask & Hdead & Htp & Hnil & Hts).
     rewrite Hk, Est. unfold k_dead_mark. rewrite Hk.
@@ -95,18 +102,25 @@ Proof.
     { apply get_worker_upd_worker_same. eapply get_worker_lt, Hk. }
     destruct (J_k_change mx tnt _ d w t (with_dead k) (Complete (-1)) HJ' Hq Hk' Hl ltac:(intros _; left; exact Htask))
       as (x3 & Ekc & HJ3 & Hm3 & Hk3 & _ & _ & HG3c).
-    rewrite Ekc. eexists _, _, _. split; [reflexivity|]. right. cbn [fold_left]. destruct Hm3 as [M1 M2 M3 M4 M5 M6].
-    split; [exact HJ3|]. split; [apply HG3c; exact Hnil|]. split; [rewrite M2; exact Hts|]. split; [rewrite M1; exact Ecc|].
-    exists (with_st (with_dead k) (Complete (-1))). split; [exact Hk3|]. split; [reflexivity|]. left.
-    split; [reflexivity | exists (-1); reflexivity].
-  - (* out of fuel *)
-    eexists _, _, []. rewrite app_nil_r. split; [reflexivity|]. left. exists x2. cbn [fold_left]. auto.
+    destruct (k_change_rho (upd_worker x2 w (with_dead k)) w (with_dead k) (Complete (-1)) x3 _ (jp_pools _ _ _ (j_p _ _ _ _ _ _ _ HJ'))
+                (jp_cur _ _ _ (j_p _ _ _ _ _ _ _ HJ')) Hk' Hl Ekc) as [Hr3 _]. cbn [terminal creator_grows] in Hr3.
+    assert (rho (upd_worker x2 w (with_dead k)) = rho x2) as Er by (apply (rho_upd_worker_same x2 w k (with_dead k) Hk); reflexivity).
+    rewrite Ekc. eexists _, _, _. split; [reflexivity|]. cbn [fold_left]. destruct Hm3 as [M1 M2 M3 M4 M5 M6].
+    split; [exact HJ3|]. split; [apply HG3c; exact Hnil|]. split; [rewrite M2; exact Hts|]. split; [rewrite M1; exact Ecc|]. split.
+    + exists (with_st (with_dead k) (Complete (-1))). split; [exact Hk3|]. split; [reflexivity|]. left.
+      split; [reflexivity | exists (-1); reflexivity].
+    + split; [cbn [sys_cost wl_cost]; lia | rewrite M4; reflexivity].
 Qed.
 
 Definition resumed_ok tnt (x0 : pw) (d : sdata) (w : nat) (t : potr) (x' : pw) (r : res) (evs : list ev) : Prop :=
-  (exists x3, x' = set_spin x3 /\ r = RBad /\ J mx tnt x3 d (Some w) (fold_left pev evs t)) \/
-  (J mx tnt x' d (Some w) (fold_left pev evs t) /\ G mx x' None /\ pw_ts x' = [] /\
-   pw_cancel_cos x' = pw_cancel_cos x0 /\ placed x' w r).
+  J mx tnt x' d (Some w) (fold_left pev evs t) /\ G mx x' None /\ pw_ts x' = [] /\
+  pw_cancel_cos x' = pw_cancel_cos x0 /\ placed x' w r /\ rho x' + 1 + sys_cost r <= rho x0 /\ pw_clock x0 <= pw_clock x'.
+
+Lemma rho_k_defect x w : rho (k_defect x w) = rho x.
+Proof. unfold k_defect. destruct (Nat.eqb _ _); reflexivity. Qed.
+
+Lemma wfuel_k_defect x w : wfuel (k_defect x w) = wfuel x.
+Proof. unfold k_defect. destruct (Nat.eqb _ _); reflexivity. Qed.
 
 Lemma k_resume_J tnt x d w t :
   J mx tnt x d (Some w) t -> quiet_off t -> G mx x (Some w) -> parked_ok x w -> ~ In w (pw_cancel_cos x) -> pw_ts x = [] ->
@@ -119,42 +133,50 @@ Proof.
   { unfold xd, k_defect. destruct (Nat.eqb _ _); [auto 10|].
     split; [apply J_add_defect, HJ|]. split; [exact Hk|]. split; [|auto].
     eapply (G_frame mx x); [reflexivity | reflexivity | reflexivity | exact HG]. }
+  assert (rho xd = rho x) as Erd by apply rho_k_defect.
   rewrite (k_resume_eq x w k Hkd). cbv zeta. fold xd.
   (* the part after the first change of state *)
   assert (forall x1 ev1 m1,
             J mx tnt x1 d (Some w) (fold_left pev ev1 t) -> G mx x1 (Some w) -> pw_cancel_cos x1 = pw_cancel_cos x ->
-            pw_ts x1 = [] -> forall k1, get_worker x1 w = Some k1 -> live k1 = true -> k_dead k1 = false -> k_tpool k1 = 0%nat ->
+            pw_ts x1 = [] -> rho x1 <= rho x -> pw_clock x <= pw_clock x1 ->
+            forall k1, get_worker x1 w = Some k1 -> live k1 = true -> k_dead k1 = false -> k_tpool k1 = 0%nat ->
             imode (k_st k1) = Some m1 -> match k_task k1 with Some (_, rest) => body_from m1 rest = true | None => m1 = MRun end ->
             exists x' r evs, (let '(x2, ev2, out) := wloop (wfuel x1) x1 w ev1 in k_finish x2 w ev2 out) = (x', r, evs) /\
                              resumed_ok tnt x d w t x' r evs) as Htail.
-  { intros x1 ev1 m1 HJ1 HG1 Ecc1 Hts1 k1 Hk1 Hl1 Hd1 Htp1 Him1 Hb1.
+  { intros x1 ev1 m1 HJ1 HG1 Ecc1 Hts1 Hr1 Hc1 k1 Hk1 Hl1 Hd1 Htp1 Him1 Hb1.
     destruct (wloop_J mx (wfuel x1) tnt x1 d w ev1 (fold_left pev ev1 t) HJ1 (quiet_off_fold _ _ Hq) HG1
                 ltac:(eapply hole_ok_intro; eassumption) ltac:(rewrite Ecc1; exact Hncc) Hts1)
-      as (x2 & evs & out & Ew & HJ2 & HG2 & Ecc2 & _ & Hpost).
+      as (x2 & evs & out & Ew & HJ2 & HG2 & Ecc2 & _ & Hc2 & Hpost & Hr2 & Hnf).
     rewrite Ew.
+    pose proof (Hnf k1 Hk1 (mu_bound mx tnt x1 d (Some w) _ w k1 HJ1 Hk1 Hl1)) as Hnf'.
     destruct (k_finish_J tnt x x2 d w (fold_left pev evs (fold_left pev ev1 t)) (ev1 ++ evs) out HJ2
-                (quiet_off_fold _ _ (quiet_off_fold _ _ Hq)) HG2 ltac:(congruence) Hpost)
-      as (x' & r & evs' & Ef & Hok).
-    exists x', r, ((ev1 ++ evs) ++ evs'). split; [exact Ef|]. unfold resumed_ok. rewrite !fold_pev_app. exact Hok. }
+                (quiet_off_fold _ _ (quiet_off_fold _ _ Hq)) HG2 ltac:(congruence) Hpost Hnf')
+      as (x' & r & evs' & Ef & H1 & H2 & H3 & H4 & H5 & H6 & H7).
+    exists x', r, ((ev1 ++ evs) ++ evs'). split; [exact Ef|]. unfold resumed_ok. rewrite !fold_pev_app.
+    repeat (split; [assumption|]). split; lia. }
   destruct Hres as [Est|[(y & ts & Est & Hle)|(y & n & Est)]]; rewrite Est in *.
   - (* Ready *)
     cbn [tr_running].
     destruct (J_k_change mx tnt xd d w t k Running HJd Hq Hkd Hl ltac:(discriminate))
       as (x1 & Ekc & HJ1 & Hm1 & Hk1 & _ & HG1b & _).
+    destruct (k_change_rho xd w k Running x1 _ (jp_pools _ _ _ (j_p _ _ _ _ _ _ _ HJd)) (jp_cur _ _ _ (j_p _ _ _ _ _ _ _ HJd)) Hkd Hl Ekc) as [Hr1 _].
+    cbn [terminal creator_grows] in Hr1.
     rewrite Ekc, Hdead. rewrite Est. destruct Hm1 as [M1 M2 M3 M4 M5 M6].
-    eapply (Htail x1 _ MRun); [exact HJ1 | apply HG1b; auto | congruence | congruence | exact Hk1 | reflexivity | exact Hdead | exact Htp | reflexivity|].
+    eapply (Htail x1 _ MRun); [exact HJ1 | apply HG1b; auto | congruence | congruence | lia | rewrite M4, Ecd; apply Z.le_refl | exact Hk1 | reflexivity | exact Hdead | exact Htp | reflexivity|].
     cbn [with_st k_task]. cbn [pmode] in Hpm. injection Hpm as <-. destruct (k_task k) as [[i rest]|]; [exact Hbody | apply Hbody].
   - (* Suspend, due *)
     cbn [tr_running]. rewrite Ecd. assert (ts <=? pw_clock x = true) as -> by lia.
     destruct (J_k_change mx tnt xd d w t k Running HJd Hq Hkd Hl ltac:(discriminate))
       as (x1 & Ekc & HJ1 & Hm1 & Hk1 & _ & HG1b & _).
+    destruct (k_change_rho xd w k Running x1 _ (jp_pools _ _ _ (j_p _ _ _ _ _ _ _ HJd)) (jp_cur _ _ _ (j_p _ _ _ _ _ _ _ HJd)) Hkd Hl Ekc) as [Hr1 _].
+    cbn [terminal creator_grows] in Hr1.
     rewrite Ekc, Hdead. rewrite Est. destruct Hm1 as [M1 M2 M3 M4 M5 M6].
-    eapply (Htail x1 _ MRun); [exact HJ1 | apply HG1b; auto | congruence | congruence | exact Hk1 | reflexivity | exact Hdead | exact Htp | reflexivity|].
+    eapply (Htail x1 _ MRun); [exact HJ1 | apply HG1b; auto | congruence | congruence | lia | rewrite M4, Ecd; apply Z.le_refl | exact Hk1 | reflexivity | exact Hdead | exact Htp | reflexivity|].
     cbn [with_st k_task]. cbn [pmode] in Hpm. injection Hpm as <-. destruct (k_task k) as [[i rest]|]; [exact Hbody|].
     destruct Hbody as [_ Hb]. discriminate.
   - (* woken from a syscall suspension *)
     cbn [tr_running]. rewrite Hdead. cbn [pmode] in Hpm. injection Hpm as <-.
-    eapply (Htail xd [] (MWoken n)); [exact HJd | exact HGd | exact Eccd | exact Htsd | exact Hkd | exact Hl | exact Hdead | exact Htp | rewrite Est; reflexivity|].
+    eapply (Htail xd [] (MWoken n)); [exact HJd | exact HGd | exact Eccd | exact Htsd | lia | rewrite Ecd; apply Z.le_refl | exact Hkd | exact Hl | exact Hdead | exact Htp | rewrite Est; reflexivity|].
     destruct (k_task k) as [[i rest]|]; [exact Hbody|]. destruct Hbody as [Hb _]. discriminate.
 Qed.
 
